@@ -253,6 +253,8 @@ def _type_hints(ctx, P):
             if isinstance(o, Obj):
                 return args[1] in o.attrs
             return False
+        if isinstance(f, Builtin) and f.name == "getattr" and len(args) == 3 and isinstance(args[1], str) and isinstance(args[0], Obj):
+            return args[0].attrs.get(args[1], args[2])  # the modelled hints carry exactly the attributes they have
         return NotImplemented
 
     def run(hints):
@@ -266,6 +268,10 @@ def _type_hints(ctx, P):
         ({"a": _hint("leftover:center"), "return": _hint("leftover:outer")}, "(leftover:center)->(leftover:outer)"),
         ({"a": _hint("X:center"), "n": plain, "return": _hint("X:left")}, "(X:center)->(X:left)"),
         ({"a": _hint("X:center"), "return": Obj("Tuple", "Tuple[...]", (), {"_name": "Tuple", "__args__": (_hint("X:left"), _hint("X:right"))})}, "(X:center)->(X:left),(X:right)"),
+        # an empty annotation is the hint form of `()`: an argument / output without grid axes
+        ({"a": _hint(""), "b": _hint("X:center"), "return": _hint("X:center")}, "(),(X:center)->(X:center)"),
+        ({"a": _hint("X:center"), "return": _hint("")}, "(X:center)->()"),
+        ({"a": _hint("X:center"), "return": Obj("Tuple", "Tuple[...]", (), {"_name": "Tuple", "__args__": (_hint("X:left"), _hint(""))})}, "(X:center)->(X:left),()"),
     ]
     for hints, text in cases:
         inst = f"hints for {text}"
